@@ -86,6 +86,7 @@ const (
 func TestVerif_C14_Scenarios(t *testing.T) {
 	run := vlib.Start(t, "C14", "scenarios")
 	defer run.Finish()
+	base.SetUpTestLogging(t, base.LevelWarn, base.KeyNone) // request-level logging of ~100 000 reads only slows the run down
 	e := c14NewEnv(t, run)
 	defer e.rt.Close()
 	e.mu.Lock()
